@@ -1,6 +1,9 @@
 """Generators of command lines for the control checks (C16–C19).  All randomness comes from the `random.Random`
 handed in (seeded `VERIF_SEED*1000003+i` by the engine)."""
 import itertools
+import re
+
+NEGATIVE_LIKE = re.compile(r"^-\d+$|^-\d*\.\d+$")      # argparse's negative-number rule: such a string is a word
 
 INTS = ["0", "1", "2", "3", "-1", "7", "12"]
 GROUPS = ["G", "H", "default", "apply-w-group-0", "map-w-group-0", "start-group-0", "start-group-1", "nope", "a-b"]
@@ -85,13 +88,18 @@ def ambiguous_prefixes(longs):
 
 
 def option_tokens(rng, p, flags, longs, value):
-    """the strings of one option in one of the forms the parser accepts: `-f V`, `--name V`, `--name=V`, an unambiguous
-    abbreviation `--na V` / `--na=V`; a flag has no value (`-f`, `--name`, `--na`)"""
+    """the strings of one option in one of the forms the parser accepts: `-f V`, `-fV`, `-f=V`, `--name V`, `--name=V`, an
+    unambiguous abbreviation `--na V` / `--na=V`; a flag has no value (`-f`, `--name`, `--na`)"""
     full = p["name"].replace("_", "-")
     f = flags.get(p["name"])
     abbr = abbreviations(full, longs)
     r = rng.random()
-    if r < 0.25 and f:
+    if r < 0.36 and f:
+        if value is not None and r < 0.24:
+            # the value in the same string: directly behind the letter (not an empty one: that is `-f` alone), or behind `=`
+            if r < 0.12 and value != "":
+                return ["-" + f + value]
+            return ["-" + f + "=" + value]
         head, eq = "-" + f, False
     elif r < 0.50 or (r >= 0.70 and not abbr):
         head, eq = "--" + full, False
@@ -106,6 +114,38 @@ def option_tokens(rng, p, flags, longs, value):
     if eq:
         return [head + "=" + value]
     return [head, value]
+
+
+def short_letters(m):
+    """the option letters of the sub-parser of member `m` as the harness reads the rule (first letter unless `h` or taken,
+    else its upper case, else none): {letter: "flag" | "opt" | "help"} — used to *generate* and to *count*, never to judge"""
+    out = {"h": "help"}
+    for p in m.get("params", []):
+        if p["kind"] not in ("opt", "flag"):
+            continue
+        c = p["name"][0]
+        if c != "h" and c not in out:
+            out[c] = p["kind"]
+        elif c.upper() not in out:
+            out[c.upper()] = p["kind"]
+    return out
+
+
+def cluster_tokens(rng, run, last, flags, value):
+    """several options in ONE single-dash string: the letters of the flags `run`, then possibly the letter of the option
+    `last` with its value in the same string (`-abgV`) or in the next one (`-abg V`); sometimes `=` behind the first
+    letter (`-a=bgV`: argparse drops it)"""
+    letters = [flags[p["name"]] for p in run]
+    text = "".join(letters[1:])
+    tail = []
+    if last is not None:
+        text += flags[last["name"]]
+        if value != "" and rng.random() < 0.5:
+            text += value
+        else:
+            tail = [value]
+    eq = "=" if text and rng.random() < 0.12 else ""
+    return ["-" + letters[0] + eq + text] + tail
 
 
 def command_line(rng, cmd, m, flags, subset=None, bad=0.0, opts_first=None):
@@ -123,7 +163,10 @@ def command_line(rng, cmd, m, flags, subset=None, bad=0.0, opts_first=None):
         p = m["params"][0]
         if rng.random() < bad * 0.3:
             return cmd + " " + rng.choice(["--he", "--hel=1", "--x=1", "--="]) + rng.choice(["", " x"])
-        return cmd + " " + (bad_value(rng, p) if rng.random() < bad else good_value(rng, p))
+        value = bad_value(rng, p) if rng.random() < bad else good_value(rng, p)
+        if rng.random() < 0.15:
+            return cmd + " " + rng.choice(["-- " + value, value + " --", "--"])   # the setter's value is a positional string
+        return cmd + " " + value
     ps = m["params"]
     opts = [p for p in ps if p["kind"] in ("opt", "flag")]
     if subset is None:
@@ -131,7 +174,7 @@ def command_line(rng, cmd, m, flags, subset=None, bad=0.0, opts_first=None):
     pos, post = [], []
     plant = rng.random() < bad
     defect = rng.choice(["badval", "missing", "extra", "novalue", "unknown", "ambiguous", "explicit", "eqempty", "eqdash",
-                         "badval"]) if plant else None
+                         "badval", "refused", "unknownattached", "sepafter", "attdash", "helpcluster"]) if plant else None
     for p in ps:
         if p["kind"] == "pos":
             if defect == "missing":
@@ -143,6 +186,18 @@ def command_line(rng, cmd, m, flags, subset=None, bad=0.0, opts_first=None):
                 pos.append(good_value(rng, p))
     chosen = [p for p in opts if p["name"] in subset]
     rng.shuffle(chosen)
+    # flags that have a letter may share one single-dash string, closed by at most one option with a value
+    lettered = [p for p in chosen if p["kind"] == "flag" and flags.get(p["name"])]
+    if lettered and rng.random() < 0.7:
+        run = lettered[:rng.randint(1, len(lettered))]
+        valued = [p for p in chosen if p["kind"] == "opt" and flags.get(p["name"])]
+        last = rng.choice(valued) if valued and rng.random() < 0.5 else None
+        if len(run) > 1 or last is not None:
+            value = None
+            if last is not None:
+                value = bad_value(rng, last) if defect == "badval" and rng.random() < 0.5 else good_value(rng, last)
+            post += cluster_tokens(rng, run, last, flags, value)
+            chosen = [p for p in chosen if p not in run and p is not last]
     for p in chosen:
         if p["kind"] != "opt":
             post += option_tokens(rng, p, flags, longs, None)
@@ -186,8 +241,38 @@ def command_line(rng, cmd, m, flags, subset=None, bad=0.0, opts_first=None):
             n = p["name"].replace("_", "-")
             n = rng.choice([n] + abbreviations(n, longs))
             post.append("--" + n + "=" + ("" if defect == "eqempty" else "--"))
+    letters = short_letters(m)
+    if defect == "refused":
+        # behind the letter of an option that takes no value: a character that is no option letter, or nothing but `=`
+        takers = [c for c, k in letters.items() if k in ("flag", "help")]
+        c = rng.choice(takers)
+        junk = rng.choice([x for x in "xyz019_.%" if x not in letters])
+        post.insert(rng.randint(0, len(post)), "-" + c + rng.choice(["=", junk, junk + "y", "=" + junk, rng.choice(takers) + junk]))
+    if defect == "unknownattached":
+        c = rng.choice([x for x in "zQ9_%" if x not in letters])
+        post.insert(rng.randint(0, len(post)), "-" + c + rng.choice(["G", "=G", "1", "x=1", "hh", "="]))
+    if defect == "attdash":
+        valued = [c for c, k in letters.items() if k == "opt"]
+        if valued:
+            post.append("-" + rng.choice(valued) + rng.choice(["--", "=--"]))
+    if defect == "helpcluster":
+        # `-h` inside a single-dash string: help if every letter is one, whatever stands where
+        fl = [c for c, k in letters.items() if k == "flag"]
+        c = rng.choice(fl) if fl else "h"
+        post.insert(rng.randint(0, len(post)), rng.choice(["-h" + c, "-" + c + "h", "-hh", "-h=" + c]))
     if opts_first is None:
         opts_first = rng.random() < 0.2
+    # the separator `--`: in front of, inside or behind the positional strings; legal when no option follows them
+    if (opts_first or not post) and rng.random() < (0.25 if pos or any(p["kind"] == "var" for p in ps) else 0.04):
+        pos.insert(rng.randint(0, len(pos)), "--")
+        if pos and pos[-1] != "--" and rng.random() < 0.15:
+            pos.append(rng.choice(["-x", "--zz", "-1", "--" + longs[-1]]))      # behind `--` an option-like string is a word
+    if defect == "sepafter":
+        # options behind the positional strings and then `--` (possibly with more behind it): left over
+        opts_first = False
+        post.append("--")
+        if rng.random() < 0.5:
+            post.append(rng.choice(INTS + ["zz", "-x"]))
     toks = [cmd] + (post + pos if opts_first else pos + post)
     return " ".join(toks)
 
@@ -210,12 +295,39 @@ def line_forms(line, cmds):
         if r == "help" and has_eq:
             out.add("explicit")
         return out
+    if toks[0].startswith("-h") and len(toks[0]) > 2:
+        out.add("cluster")                       # `-hh`, `-hx`, `-h=`: read letter by letter at the top level too
+        return out
     m = cmds.get(toks[0])
     if m is None:
         return out
     longs = long_names(m)
     flagsy = {"help"} | {p["name"].replace("_", "-") for p in m.get("params", []) if p["kind"] == "flag"}
+    letters = short_letters(m)
+    if "--" in toks[1:]:
+        out.add("separator")
+        toks = toks[:toks.index("--", 1)]
     for t in toks[1:]:
+        if t.startswith("-") and not t.startswith("--") and len(t) > 2 and not NEGATIVE_LIKE.match(t):
+            kind = letters.get(t[1])
+            if kind is None:
+                out.add("unknown_attached")
+            else:
+                if t[2] == "=":
+                    out.add("short_eq")
+                if kind == "opt":
+                    out.add("attached")
+                else:
+                    rest = t[3:] if t[2] == "=" else t[2:]
+                    k, ok = 0, rest != ""
+                    while ok and k < len(rest) and letters.get(rest[k]) in ("flag", "help"):
+                        k += 1
+                    if ok and k < len(rest) and letters.get(rest[k]) is None:
+                        ok = False
+                    out.add("cluster" if ok else "cluster_refused")
+                    if ok and k < len(rest):
+                        out.add("cluster_valued")
+            continue
         if not t.startswith("--") or t == "--":
             continue
         name, has_eq, _ = t[2:].partition("=")
@@ -280,6 +392,10 @@ def malformed_line(rng, cmds):
         "=" + cmd,
         cmd + " - -",
         cmd + " -1 -2 -x",
+        cmd + " -h" + rng.choice(["h", "x", "=", "=h", "-"]),
+        "-h" + rng.choice(["h", "x", "=", "=h", "hx"]) + rng.choice(["", " " + cmd]),
+        cmd + " -- " + rng.choice(["-h", "--help", "--", "-x 1", ""]),
+        cmd + " " + rng.choice(INTS) + " -- --",
         "exit",
         "{\"terminal_width\": 80}",
         cmd + " " + " ".join(rng.choice(INTS) for _ in range(rng.randint(2, 12))),
@@ -292,9 +408,16 @@ def session_line(rng, cmds, flags_by_cmd, profile):
     good, defective, malformed = profile
     if r < good + defective:
         cmd = rng.choice(sorted(cmds))
+        if rng.random() < 0.2:
+            # commands whose options can share one single-dash string: a flag with a letter and at least one more lettered option
+            rich = [c for c in sorted(cmds) if cmds[c]["kind"] == "function"
+                    and "flag" in short_letters(cmds[c]).values() and len(short_letters(cmds[c])) >= 3]
+            if rich:
+                cmd = rng.choice(rich)
         if rng.random() < 0.08:
             return rng.choice([cmd + " -h", cmd + " --help", "-h", "--help", cmd + " --he", cmd + " --hel", cmd + " --h",
-                               "--he", "--h " + cmd, "--hel=1", cmd + " --help=", cmd + " 1 --he"])
+                               "--he", "--h " + cmd, "--hel=1", cmd + " --help=", cmd + " 1 --he", cmd + " -hh", "-hh",
+                               cmd + " -h=h"])
         return command_line(rng, cmd, cmds[cmd], flags_by_cmd.get(cmd, {}), bad=(defective / (good + defective)))
     if r < good + defective + malformed:
         return malformed_line(rng, cmds)
